@@ -571,7 +571,59 @@ def check_standard_xy(ctx):
             n += 1
             ctx.ob("C16.6", site, ok_iv, "the metric is evaluated on the intervals of the -r thresholds (util.get_intervals(bin_type, thresholds))", loc=loc,
                    msg="the interval handed to metric.compute is %s" % sorted(k[:80] for k in ivs))
-    ctx.floor("C16.6", 5)
+        # (c) by cases: with a data axis (not threshold / obs / fcst) the column is the plain average of the metric over ALL -r intervals,
+        # whatever the metric: (sum_i compute(data, f, axis, intervals[i])) / len(intervals)
+        thr_axes = None
+        for a in q.atoms(y, "ifexp"):
+            k = a.args[0].key() if isinstance(a.args[0], Rat) else ""
+            if k.startswith("in($axis,(") and "call:verif.axis.Threshold()" in k:
+                thr_axes = k
+        if thr_axes is not None:
+            notin_key = thr_axes.replace("in(", "notin(", 1)
+            yd = _fix_flag(_fix_flag(y, thr_axes, False), notin_key, True)
+            cur, dcols = yd, []
+            while True:
+                at = cur.as_atom("setitem") if isinstance(cur, Rat) else None
+                if at is None:
+                    break
+                dcols.append((at.args[1], at.args[2]))
+                cur = at.args[0]
+            for ix, val in dcols:
+                if not isinstance(val, Rat):
+                    continue
+                calls = [a for a in q.atoms(val) if a.func.endswith("_metric.compute") or a.func == "m:compute"]
+                lens = [a for a in q.atoms(val, "len") if a.args and isinstance(a.args[0], Rat) and a.args[0].as_atom() is not None
+                        and a.args[0].as_atom().func.endswith("get_intervals")]
+                residual = sorted(set(a.args[0].key()[:70] for a in q.atoms(val, "ifexp") if isinstance(a.args[0], Rat)
+                                      and "$axis.is_time_like" not in a.args[0].key()))
+                ok = bool(calls) and bool(lens) and not residual
+                why = ""
+                if residual:
+                    why = "the column depends on %s" % residual[:2]
+                elif not lens:
+                    why = "the sum is not divided by the number of intervals"
+                if ok:
+                    L = Rat.of_atom(lens[0])
+                    total = Rat.const(0)
+                    for a in set(calls):
+                        total = total + Rat.of_atom(a)
+                    rest = val * L - total
+                    left = [a for a in q.atoms(rest) if a.func.endswith("_metric.compute") or a.func == "m:compute"]
+                    idx = set()
+                    for a in calls:
+                        iv = a.args[3] if len(a.args) > 3 and isinstance(a.args[3], Rat) else None
+                        g = iv.as_atom("getitem") if iv is not None else None
+                        if g is not None and isinstance(g.args[1], Rat):
+                            idx.add(g.args[1].key())                     # intervals[i]
+                        elif iv is not None and iv.as_atom() is not None and iv.as_atom().func.startswith("elem"):
+                            idx.add(iv.as_atom().func)                   # for interval in intervals
+                    ok = not left and len(idx) >= 2 and all("#" in k for k in idx)
+                    if not ok:
+                        why = "it is %s" % str(val)[:160]
+                n += 1
+                ctx.ob("C16.6", site, ok, "data axis: the column is the average of the metric over all -r intervals (sum over i of compute(.., intervals[i]) / len(intervals))",
+                       loc=loc, msg="with a data axis the drawn / printed score is not the average over the -r thresholds for every metric: %s" % why)
+    ctx.floor("C16.6", 7)
 
 
 def run(ctx):
